@@ -124,7 +124,13 @@ def gen_costs(rng, n, m):
     return t, cs
 
 
-def gen_population(rng, Individual, nmax):
+def gen_population(rng, Individual, nmax, SubInd=None):
+    """A population with the variations the model must be insensitive to (or follow exactly):
+    duplicated designs (identical vector: same or DIFFERENT costs), 0.0/-0.0, other number representations
+    of the same vector (int / numpy.float64: equal and hash-equal in Python), near-equal vectors (1e-11
+    apart: `==` but not hash-equal, so set() keeps both), distinct vectors with colliding tuple hashes
+    (hash(-1.0) == hash(-2.0)), subclasses, states, extra features, costs as float / numpy.float64 / int."""
+    import numpy as np
     n = rng.choice([1, 2, 3, 3, 4, 4, 5, 5, 6, 6, 7, 8, 9, 10, 12] + ([16, 20, 25, 30] if nmax > 12 else []))
     n = min(n, nmax)
     m = rng.choice([1, 2, 2, 2, 3, 3, 4])
@@ -132,27 +138,50 @@ def gen_population(rng, Individual, nmax):
     nv = rng.choice([1, 2, 3])
     p_dup = rng.choice([0.0, 0.0, 0.25, 0.5])
     mixed = rng.random() < 0.2
-    as_numpy = rng.random() < 0.25          # artap's own costs_signed entries are numpy float64 scalars
-    if as_numpy:
-        import numpy as np
+    cost_repr = rng.choice(["float", "float", "float", "numpy", "int"])
+    if cost_repr == "int" and not all(float(v).is_integer() and abs(v) < 2 ** 50 for c in cs for v in c):
+        cost_repr = "float"
+    collide = rng.random() < 0.2            # first coordinates -1.0, -2.0, ...: hash((-1.0,)+r) == hash((-2.0,)+r)
+    kinds = {"dup": 0, "dup_other_costs": 0, "near_equal": 0, "other_repr": 0, "hash_collision": int(collide and n >= 2)}
+
+    def conv(v):
+        return np.float64(v) if cost_repr == "numpy" else (int(v) if cost_repr == "int" else v)
+
     pop = []
     for i in range(n):
-        if pop and rng.random() < p_dup:                 # a duplicated design: same vector, same costs, new object
+        cls = SubInd if (SubInd is not None and rng.random() < 0.2) else Individual
+        own_costs = [conv(v) for v in cs[i]] + [rng.choice([True, 1]) if (mixed and rng.random() < 0.4) else rng.choice([False, False, 0])]
+        if pop and rng.random() < p_dup:
             src = rng.choice(pop)
             vec = list(src.vector)
-            if rng.random() < 0.3:                       # 0.0 / -0.0 : equal and hash-equal in Python
+            r = rng.random()
+            if r < 0.2:                                  # 0.0 / -0.0 : equal and hash-equal in Python
                 vec = [(-v if v == 0.0 else v) for v in vec]
-            ind = Individual(vec)
-            ind.costs_signed = list(src.costs_signed)
+            elif r < 0.4:                                # another representation of the same numbers
+                vec = [(int(v) if float(v).is_integer() and rng.random() < 0.5 else np.float64(v)) for v in vec]
+                kinds["other_repr"] += 1
+            elif r < 0.55:                               # near-equal: == within 1e-10, but a different hash
+                j = rng.randrange(len(vec))
+                vec[j] = float(vec[j]) + rng.choice([1e-11, -1e-11, 5e-11])
+                kinds["near_equal"] += 1
+            ind = cls(vec)
+            if rng.random() < 0.3:                       # the same design evaluated to different costs
+                ind.costs_signed = own_costs
+                kinds["dup_other_costs"] += 1
+            else:
+                ind.costs_signed = list(src.costs_signed)
+            kinds["dup"] += 1
         else:
-            vec = ([float(i)] + [rng.choice(VGRID) for _ in range(nv - 1)])
-            ind = Individual(vec)
-            marker = (rng.random() < 0.4) if mixed else False
-            ind.costs_signed = [np.float64(v) for v in cs[i]] + [marker] if as_numpy else list(cs[i]) + [marker]
+            first = -float(i + 1) if collide else float(i)
+            ind = cls([first] + [rng.choice(VGRID) for _ in range(nv - 1)])
+            ind.costs_signed = own_costs
         ind.costs = list(ind.costs_signed[:-1])
         ind.features["feasible"] = not ind.costs_signed[-1]
+        ind.state = rng.choice(list(Individual.State))
+        if rng.random() < 0.2:
+            ind.features["note"] = rng.random()
         pop.append(ind)
-    return template, m, pop
+    return template, m, pop, kinds
 
 
 # ---------------------------------------------------------------- the direct oracle (property clauses on the implementation's output)
@@ -224,13 +253,21 @@ def oracle_truncate(ctx, pop, cid, k, res):
         fail("a design survives more than once", "truncate_duplicate")
     keptset = set(kept)
     discarded = [x for x in pop if design(x) not in keptset]
+    # a discarded DESIGN may be carried by several individuals (normally with identical costs and front numbers; the
+    # generators also evaluate one design to different costs): the clause is applied in its weakest reading - a survivor
+    # is worse-ranked than / dominated by the design only if that holds against every individual carrying it
+    groups = {}
+    for d in discarded:
+        groups.setdefault(design(d), []).append(d)
     for s in res:
-        for d in discarded:
-            if s.features["front_number"] > d.features["front_number"]:
+        for g in groups.values():
+            if all(s.features["front_number"] > d.features["front_number"] for d in g):
+                d = g[0]
                 fail("survivor %d (front %d) has a worse front number than the discarded design of %d (front %d)"
                      % (cid[id(s)], s.features["front_number"], cid[id(d)], d.features["front_number"]), "truncate_rank")
                 return
-            if dominates(d.costs_signed, s.costs_signed):
+            if all(dominates(d.costs_signed, s.costs_signed) for d in g):
+                d = g[0]
                 fail("survivor %d is dominated by the discarded design of %d" % (cid[id(s)], cid[id(d)]), "truncate_dominated")
                 return
     if len(designs) == len(pop) and res:
@@ -305,14 +342,24 @@ def run(ctx):
     import artap.operators as ops
     from artap.individual import Individual
     rng = ctx.rng
-    n_pops = ctx.pick(260, 6000)
+    n_pops = ctx.pick(240, 5000)
     nmax = ctx.pick(12, 30)
     cases, expected, meta = [], [], []
     stats = {"populations": 0, "crowding_calls": 0, "fronts_ge3": 0, "tie_free_fronts_ge3": 0, "fronts_with_ties": 0,
-             "interior_finite_values": 0, "zero_range_objectives": 0, "truncate_cases": 0, "truncate_with_duplicates": 0,
-             "truncate_cut_inside_front": 0, "truncate_k_ge_distinct": 0, "tournament_cases": 0, "tournament_by_rank": 0,
-             "tournament_by_dominance": 0, "tournament_by_coin": 0, "tournament_single": 0,
+             "interior_finite_values": 0, "zero_range_objectives": 0, "crowding_calls_with_stale_distances": 0,
+             "truncate_cases": 0, "truncate_with_duplicates": 0, "truncate_cut_inside_front": 0, "truncate_k_ge_distinct": 0,
+             "truncate_on_reused_list_object": 0, "tournament_cases": 0, "tournament_by_rank": 0, "tournament_by_dominance": 0,
+             "tournament_by_coin": 0, "tournament_single": 0, "tournament_merged_populations": 0,
+             "populations_with_colliding_ids": 0, "populations_with_hash_collisions": 0, "duplicates": 0,
+             "duplicates_with_other_costs": 0, "near_equal_vectors": 0, "other_number_representation": 0,
              "templates": {}, "pop_size_hist": {}, "objective_count_hist": {}}
+
+    class SubInd(Individual):                       # a subclass with its own features, as the algorithms define them
+        def add_features(self):
+            self.features["crowding_distance"] = 0
+            self.features["front_number"] = None
+
+    # ONE selector object for the whole stream, as the algorithms keep it
     selector = ops.TournamentSelector([])
     real_cd = ops.crowding_distance
     real_random = ops.random
@@ -321,9 +368,10 @@ def run(ctx):
 
     def rec_cd(front):
         before = [(cid[id(x)], [float(v) for v in x.costs_signed[:-1]]) for x in front]
+        stale = any(x.features.get("crowding_distance") not in (0, 0.0, None) for x in front)
         real_cd(front)
         after = [(cid[id(x)], [float(v) for v in x.costs_signed[:-1]], x.features.get("crowding_distance")) for x in front]
-        calls.append((before, after))
+        calls.append((before, after, stale))
 
     class RecSet(set):
         order = None
@@ -333,7 +381,7 @@ def run(ctx):
             RecSet.order = o
             return iter(o)
 
-    def add_crowding(before, after):
+    def add_crowding(before, after, stale):
         if not before:
             return
         m = len(before[0][1])
@@ -343,6 +391,7 @@ def run(ctx):
         tf = oracle_crowding(ctx, before, after, m)
         n = len(before)
         stats["crowding_calls"] += 1
+        stats["crowding_calls_with_stale_distances"] += int(stale)
         if n >= 3:
             stats["fronts_ge3"] += 1
             stats["tie_free_fronts_ge3" if tf else "fronts_with_ties"] += 1
@@ -352,27 +401,39 @@ def run(ctx):
         if n >= 4 and tf and len(ctx.samples) < 2:
             ctx.sample(meta[-1])
 
+    def flush_calls():
+        for before, after, stale in calls:
+            add_crowding(before, after, stale)
+        del calls[:]
+
+    def features_of(pop):
+        return [(x.features["front_number"], x.features["crowding_distance"]) for x in pop]
+
+    def set_features(pop, feats):
+        for x, (fn, cd) in zip(pop, feats):
+            x.features["front_number"], x.features["crowding_distance"] = fn, cd
+
+    def populations():
+        for costs, dups in CORPUS:          # boundary cases read off the code, always run first
+            pop = []
+            for i, c in enumerate(costs):
+                ind = Individual([float(i), 0.5])
+                ind.costs_signed = list(c) + [False]
+                pop.append(ind)
+            for src in dups:                # duplicated designs: same vector, same costs, new object
+                ind = Individual(list(pop[src].vector))
+                ind.costs_signed = list(pop[src].costs_signed)
+                pop.append(ind)
+            for ind in pop:
+                ind.costs = list(ind.costs_signed[:-1])
+                ind.features["feasible"] = True
+            yield "corpus", len(costs[0]), pop, {"dup": len(dups)}
+        for _ in range(n_pops):
+            yield gen_population(rng, Individual, nmax, SubInd)
+
     try:
         ops.crowding_distance = rec_cd
-        def populations():
-            for costs, dups in CORPUS:          # boundary cases read off the code, always run first
-                pop = []
-                for i, c in enumerate(costs):
-                    ind = Individual([float(i), 0.5])
-                    ind.costs_signed = list(c) + [False]
-                    pop.append(ind)
-                for src in dups:                # duplicated designs: same vector, same costs, new object
-                    ind = Individual(list(pop[src].vector))
-                    ind.costs_signed = list(pop[src].costs_signed)
-                    pop.append(ind)
-                for ind in pop:
-                    ind.costs = list(ind.costs_signed[:-1])
-                    ind.features["feasible"] = True
-                yield "corpus", len(costs[0]), pop
-            for _ in range(n_pops):
-                yield gen_population(rng, Individual, nmax)
-
-        for template, m, pop in populations():
+        for template, m, pop, kinds in populations():
             cid.clear()
             for i, x in enumerate(pop):
                 cid[id(x)] = i
@@ -381,40 +442,69 @@ def run(ctx):
             stats["templates"][template] = stats["templates"].get(template, 0) + 1
             stats["pop_size_hist"][n] = stats["pop_size_hist"].get(n, 0) + 1
             stats["objective_count_hist"][m] = stats["objective_count_hist"].get(m, 0) + 1
+            stats["populations_with_hash_collisions"] += kinds.get("hash_collision", 0)
+            stats["duplicates"] += kinds.get("dup", 0)
+            stats["duplicates_with_other_costs"] += kinds.get("dup_other_costs", 0)
+            stats["near_equal_vectors"] += kinds.get("near_equal", 0)
+            stats["other_number_representation"] += kinds.get("other_repr", 0)
 
             # 1. rank with the real sorter (it calls crowding_distance once per front)
             del calls[:]
             selector.fast_nondominated_sorting(pop)
-            for before, after in calls:
-                add_crowding(before, after)
+            flush_calls()
             if any(x.features.get("front_number") is None for x in pop):
                 ctx.mismatches.append({"what": "the sorter left an individual unranked (C02 territory); population skipped"})
                 continue
+            ranked = features_of(pop)
+            # in a third of the populations the tournaments see a MERGED population whose halves were ranked separately
+            # by the real sorter: equal front numbers then no longer exclude dominance, which is what the comparator
+            # branch of select() is for (on a consistently ranked population that branch is dead code)
+            merged = None
+            if n >= 4 and rng.random() < 0.34:
+                half = n // 2
+                selector.fast_nondominated_sorting(pop[:half])
+                selector.fast_nondominated_sorting(pop[half:])
+                flush_calls()
+                merged = features_of(pop)
+                set_features(pop, ranked)
+                stats["tournament_merged_populations"] += 1
+            # the sorter is done with this population: from here on nothing may depend on Individual.id, so in a third
+            # of the populations the ids collide (as after from_dict / a second interpreter)
+            if rng.random() < 0.33:
+                for x in pop:
+                    x.id = rng.choice([0, 7])
+                stats["populations_with_colliding_ids"] += 1
 
-            # 2. truncation, every size 1..n+2 (a sample of them for larger populations), shuffled input order
+            # 2. truncation, every size 1..n+2 (a sample of them for larger populations); the SAME list object is passed
+            #    again and again, shuffled in place in between
             ndesigns = len(set(design(x) for x in pop))
             ks = list(range(1, n + 3))
             if len(ks) > 7:
                 ks = sorted(set(rng.sample(ks, 5) + [1, ndesigns, n + 2]))
-            for k in ks:
-                inp = list(pop)
+            rng.shuffle(ks)
+            inp = list(pop)
+            for turn, k in enumerate(ks):
                 if rng.random() < 0.6:
                     rng.shuffle(inp)
+                enc_pop = ll([enc_ind(x, cid) for x in inp])          # what the implementation is given
+                snapshot = list(inp)
                 RecSet.order = None
                 ops.set = RecSet
                 try:
                     res = ops.nondominated_truncate(inp, k)
                 finally:
                     del ops.set
-                order = RecSet.order if RecSet.order is not None else list(set(inp))
-                cases.append("CTrunc %s %s %s" % (ll([enc_ind(x, cid) for x in inp]), ll([cid[id(x)] for x in order], nl), nl(k)))
+                order = RecSet.order if RecSet.order is not None else list(set(snapshot))
+                cases.append("CTrunc %s %s %s" % (enc_pop, ll([cid[id(x)] for x in order], nl), nl(k)))
                 expected.append("OIds %s" % ll([cid.get(id(x), 999999) for x in res], nl))
                 meta.append({"op": "nondominated_truncate", "size": k,
-                             "population": [{"id": cid[id(x)], "vector": x.vector, "costs_signed": [float(v) for v in x.costs_signed],
-                                             "front": x.features["front_number"], "cd": x.features["crowding_distance"]} for x in inp],
+                             "population": [{"id": cid[id(x)], "vector": [float(v) for v in x.vector],
+                                             "costs_signed": [float(v) for v in x.costs_signed],
+                                             "front": x.features["front_number"], "cd": x.features["crowding_distance"]} for x in snapshot],
                              "set_order": [cid[id(x)] for x in order], "returned": [cid.get(id(x), -1) for x in res]})
-                oracle_truncate(ctx, inp, cid, k, res)
+                oracle_truncate(ctx, snapshot, cid, k, res)
                 stats["truncate_cases"] += 1
+                stats["truncate_on_reused_list_object"] += int(turn > 0)
                 if ndesigns < n:
                     stats["truncate_with_duplicates"] += 1
                 if k >= ndesigns:
@@ -423,71 +513,66 @@ def run(ctx):
                     cut = max(x.features["front_number"] for x in res)
                     if any(x.features["front_number"] == cut and not any(x is r for r in res) for x in order):
                         stats["truncate_cut_inside_front"] += 1
-                ctx.count(("tr", k, tuple((cid[id(x)], x.features["front_number"]) for x in inp)), nontrivial=(n >= 2))
+                ctx.count(("tr", k, tuple((cid[id(x)], x.features["front_number"]) for x in snapshot)), nontrivial=(n >= 2))
                 if n >= 5 and 1 < k < n and ndesigns < n and len(ctx.samples) < 3:
                     ctx.sample(meta[-1])
+                if len(inp) != len(snapshot) or any(a is not b for a, b in zip(inp, snapshot)):
+                    inp = list(snapshot)          # the call modified its argument: keep the stream going on a sane list
 
-            # 3. binary tournaments on the ranked population; in a third of the populations the two halves were
-            #    ranked separately by the real sorter (front numbers of a merged population: equal front numbers
-            #    no longer exclude dominance, which is what the comparator branch of select() is for)
-            merged = n >= 4 and rng.random() < 0.34
-            if merged:
-                saved = [(x.features["front_number"], x.features["crowding_distance"]) for x in pop]
-                half = n // 2
-                del calls[:]
-                selector.fast_nondominated_sorting(pop[:half])
-                selector.fast_nondominated_sorting(pop[half:])
-                for before, after in calls:
-                    add_crowding(before, after)
-                stats["tournament_merged_populations"] = stats.get("tournament_merged_populations", 0) + 1
+            # 3. binary tournaments (same selector, same list object shuffled in place)
+            if merged is not None:
+                set_features(pop, merged)
             tape = RandomTape(rng)
             ops.random = tape
             try:
-                for _t in range((min(4 * n, 16) if merged else min(2 * n, 8)) if n > 1 else 1):
-                    inp = list(pop)
-                    rng.shuffle(inp)
+                inp = list(pop)
+                for _t in range((min(4 * n, 16) if merged is not None else min(2 * n, 8)) if n > 1 else 1):
+                    if rng.random() < 0.7:
+                        rng.shuffle(inp)
+                    enc_pop = ll([enc_ind(x, cid) for x in inp])
+                    snapshot = list(inp)
                     tape.samples, tape.choices = [], []
                     w = selector.select(inp)
                     smp = tape.samples[0] if tape.samples else None
                     coin = tape.choices[0] if tape.choices else None
                     extra = len(tape.samples) > 1 or len(tape.choices) > 1 or (smp is not None and len(smp) != 2)
-                    cases.append("CTour %s %s %s" % (ll([enc_ind(x, cid) for x in inp]),
-                                                     optl(smp if not extra else None, lambda s: pl(nl(s[0]), nl(s[1]))), optl(coin, nl)))
+                    cases.append("CTour %s %s %s" % (enc_pop, optl(smp if not extra else None, lambda s: pl(nl(s[0]), nl(s[1]))), optl(coin, nl)))
                     expected.append("OWin %s" % nl(cid.get(id(w), 999999)))
                     meta.append({"op": "tournament", "population": [{"id": cid[id(x)], "costs_signed": [float(v) for v in x.costs_signed],
-                                                                     "front": x.features["front_number"]} for x in inp],
+                                                                     "front": x.features["front_number"]} for x in snapshot],
                                  "sample": smp, "choice": coin, "winner": cid.get(id(w), -1)})
-                    oracle_tournament(ctx, inp, cid, smp if (smp is not None and len(smp) == 2) else None, w)
+                    oracle_tournament(ctx, snapshot, cid, smp if (smp is not None and len(smp) == 2) else None, w)
                     stats["tournament_cases"] += 1
                     if smp is None:
                         stats["tournament_single"] += 1
                     elif coin is not None:
                         stats["tournament_by_coin"] += 1
-                    elif inp[smp[0]].features["front_number"] != inp[smp[1]].features["front_number"]:
+                    elif snapshot[smp[0]].features["front_number"] != snapshot[smp[1]].features["front_number"]:
                         stats["tournament_by_rank"] += 1
                     else:
                         stats["tournament_by_dominance"] += 1
-                    ctx.count(("to", tuple(cid[id(x)] for x in inp), tuple(smp or ()), coin,
+                    ctx.count(("to", tuple(cid[id(x)] for x in snapshot), tuple(smp or ()), coin,
                                tuple(tuple(float(v) for v in x.costs_signed) for x in pop)), nontrivial=(n >= 2))
                     if smp is not None and coin is None and len(ctx.samples) < 4 and \
-                            inp[smp[0]].features["front_number"] == inp[smp[1]].features["front_number"]:
+                            snapshot[smp[0]].features["front_number"] == snapshot[smp[1]].features["front_number"]:
                         ctx.sample(meta[-1])
+                    if len(inp) != len(snapshot) or any(a is not b for a, b in zip(inp, snapshot)):
+                        inp = list(snapshot)
             finally:
                 ops.random = real_random
-            if merged:
-                for x, (fn, cd) in zip(pop, saved):
-                    x.features["front_number"], x.features["crowding_distance"] = fn, cd
+            set_features(pop, ranked)
 
-            # 4. crowding_distance called directly on arbitrary sub-lists (dominated members, ties, any order)
+            # 4. crowding_distance called directly on arbitrary sub-lists (dominated members, ties, any order, distances
+            #    left over from the earlier sorts), twice on the same list object
             for _d in range(2):
                 sub = [x for x in pop if rng.random() < 0.8]
                 rng.shuffle(sub)
                 if not sub:
                     continue
-                del calls[:]
                 ops.crowding_distance(sub)
-                for before, after in calls:
-                    add_crowding(before, after)
+                if rng.random() < 0.5:
+                    ops.crowding_distance(sub)
+                flush_calls()
     finally:
         ops.crowding_distance = real_cd
         ops.random = real_random
@@ -496,8 +581,11 @@ def run(ctx):
 
     ctx.coq_compare("c03", HEADER, "c03_case", "c03_obs", "c03_run", "c03_obs_eqb", cases, expected, meta, shard=400)
     ctx.rule = ("populations of 1..%d individuals with 1..4 objectives from templates (value grids with ties, anti-chains, chains, all-equal, "
-                "zero-range objectives, tie-free uniform values, scaled magnitudes), duplicated designs (same vector, 0.0/-0.0), mixed feasibility; "
-                "ranked by the real fast_nondominated_sorting; every crowding_distance call (per front, plus direct calls on arbitrary sub-lists), "
-                "nondominated_truncate for sizes 1..n+2 on shuffled input with the observed set() order as oracle, TournamentSelector.select with "
-                "recorded random.sample/random.choice. Non-trivial: fronts of >= 3 members, populations of >= 2; distinct = distinct (operation, inputs)") % nmax
+                "zero-range objectives, tie-free uniform values, scaled magnitudes); duplicated designs (identical vector with the same or with "
+                "different costs, 0.0/-0.0, int / numpy.float64 representations), near-equal vectors (1e-11), distinct vectors with colliding "
+                "hashes, subclasses, states, colliding Individual.id, costs as float / numpy.float64 / int, mixed feasibility markers; one "
+                "long-lived selector object; ranked by the real fast_nondominated_sorting; every crowding_distance call (per front, on separately "
+                "ranked halves, and direct calls on arbitrary sub-lists carrying stale distances), nondominated_truncate for sizes 1..n+2 on one "
+                "re-used list object shuffled in place with the observed set() order as oracle, TournamentSelector.select with recorded "
+                "random.sample/random.choice. Non-trivial: fronts of >= 3 members, populations of >= 2; distinct = distinct (operation, inputs)") % nmax
     ctx.extra.update({"case_kinds": stats})
